@@ -54,7 +54,7 @@ def main():
             "name": "sa",
             "path": "sa/",
             "serves_properties": sorted(claims),
-            "kind_free_text": "purpose-built static analyser over the ast of the current working tree: resolved symbols and class hierarchy, guard extraction, statement CFG with exceptional edges (dominance, must-pass-through), def-use / taint, who-may-call / who-may-write sweeps, sibling and table agreement, finite abstract interpretation (truthiness, sign), regex-language inclusion on the regex constants; in-memory mutant overlays as liveness self-test",
+            "kind_free_text": "purpose-built static analyser over the ast of the current working tree: resolved symbols and class hierarchy, guard extraction, statement CFG with exceptional edges (dominance, must-pass-through), def-use / taint, who-may-call / who-may-write sweeps, sibling and table agreement, finite abstract interpretation (truthiness, sign), priority-faithful interpretation of the regex constants (the program is never run), structured path enumeration, code-template reconstruction; behaviour-preserving view normalisation against a pinned name table; in-memory mutant and diff overlays as liveness self-test",
         }],
         "checks": checks,
         "notes": "Static analysis only. Exit 0 = every rule instance discharged; exit 1 + VIOLATION = a rule instance is broken and not listed in known_findings.txt; exit 2 + ANALYSIS-ERROR = an anchor vanished, an instance floor is not met or a construct is in an unrecognised form (no verdict). Thorough = whole-repository sweeps plus the liveness self-test (recorded in evidence).",
